@@ -43,6 +43,7 @@ func init() {
 			ruleCORSOptionPlumbing(c, "R9")
 			ruleInternalKeyIsNotAMethod(c, "R10")
 			ruleListHeaderReadCompletely(c, "R11")
+			rulePreflightNotAgainstRootUnion(c, "R12")
 			ruleHeaderNameCase(c, "R12")
 		},
 	})
@@ -63,6 +64,8 @@ func init() {
 			ruleCredentials(c, "R9")
 			ruleSummaryByBuilder(c, "R7b")
 			ruleCORSOptionPlumbing(c, "R10")
+			ruleEmptyListElementsIgnored(c, "R11")
+			ruleNodeMethodSetReadOnce(c, "R12")
 		},
 	})
 }
@@ -839,8 +842,8 @@ func preflightAssume(cond ssa.Value) (bool, bool) {
 		return holdsIfEq(true) // method is OPTIONS
 	case isHeaderGet(bo.X, hACRM) && s == "":
 		return holdsIfEq(false) // request method header not empty
-	case strings.HasSuffix(an.AP(bo.X), ".URL.Path") && s == "*":
-		return holdsIfEq(false) // path is not *
+	case strings.HasSuffix(an.AP(bo.X), ".URL.Path") && (s == "*" || s == ""):
+		return holdsIfEq(false) // path is not * (nor the empty path, which the tree maps to the same node)
 	}
 	return false, false
 }
@@ -931,6 +934,27 @@ func ruleHeaderNameCase(c *Ctx, rule string) {
 	normal := map[ssa.Value]bool{}
 	untrimmed := map[ssa.Value]bool{} // items of a split list that did not pass TrimSpace yet
 	funcs := an.SortedFuncs(reach)
+	// a local variable (cell) that is re-assigned (`v = strings.TrimSpace(v)`): at a use it holds an untrimmed item iff
+	// an untrimmed store reaches the use without a trimmed store to the same cell in between
+	cellUntrimmedAt := func(cell *ssa.Alloc, use ssa.Instruction) bool {
+		for _, ref := range *cell.Referrers() {
+			st, ok := ref.(*ssa.Store)
+			if !ok || st.Addr != ssa.Value(cell) || !untrimmed[st.Val] {
+				continue
+			}
+			path := (&an.Query{
+				Target: func(t ssa.Instruction) bool { return t == use },
+				Block: func(t ssa.Instruction) bool {
+					s2, ok := t.(*ssa.Store)
+					return ok && s2.Addr == ssa.Value(cell) && !untrimmed[s2.Val]
+				},
+			}).Search(an.After(st))
+			if path != nil {
+				return true
+			}
+		}
+		return false
+	}
 	for changed := true; changed; {
 		changed = false
 		mark := func(m map[ssa.Value]bool, v ssa.Value) {
@@ -1011,7 +1035,11 @@ func ruleHeaderNameCase(c *Ctx, rule string) {
 							if normal[b] {
 								mark(normal, fn.FreeVars[i])
 							}
-							if untrimmed[b] {
+							if cell, isCell := b.(*ssa.Alloc); isCell {
+								if cellUntrimmedAt(cell, in) {
+									mark(untrimmed, fn.FreeVars[i])
+								}
+							} else if untrimmed[b] {
 								mark(untrimmed, fn.FreeVars[i])
 							}
 						}
@@ -1025,6 +1053,14 @@ func ruleHeaderNameCase(c *Ctx, rule string) {
 					mark(tainted, v)
 					if allN {
 						mark(normal, v)
+					}
+					if ld, isLoad := in.(*ssa.UnOp); isLoad && ld.Op == token.MUL {
+						if cell, isCell := ld.X.(*ssa.Alloc); isCell {
+							if cellUntrimmedAt(cell, in) {
+								mark(untrimmed, v)
+							}
+							return
+						}
 					}
 					for _, op := range in.Operands(nil) {
 						if *op != nil && untrimmed[*op] {
@@ -1261,8 +1297,10 @@ func ruleCorsProvenance(c *Ctx, rule string) {
 					}
 				})
 			}
-			good := t == "call<invoke:types.Node.AllowHeader>("+strings.Replace(tested, "p:", "param:", 1)+")" && tested != ""
-			c.R.Add(rule, c.fk(hw.f), "write:"+hACAM+"/value=AllowHeader(tested-node)", c.pos(hw.in), good, ifelse(good, "Allow-Methods is the Allow set of the node whose methods were tested", "Access-Control-Allow-Methods is "+t+", not AllowHeader() of the matched node"))
+			node := strings.Replace(tested, "p:", "param:", 1)
+			// AllowHeader() of that node, or the tested list itself joined the way AllowHeader joins it
+			good := tested != "" && (t == "call<invoke:types.Node.AllowHeader>("+node+")" || t == "call<strings.Join>(call<invoke:types.Node.Methods>("+node+"), \", \")")
+			c.R.Add(rule, c.fk(hw.f), "write:"+hACAM+"/value=AllowHeader(tested-node)", c.pos(hw.in), good, ifelse(good, "Allow-Methods is the Allow set of the node whose methods were tested", "Access-Control-Allow-Methods is "+t+", not the Allow set (AllowHeader(), or Methods() joined by \", \") of the matched node"))
 		case hACAH, hACEH, hACMA:
 			want := fieldOf[hw.name]
 			t := c.O.Of(hw.val).String()
@@ -1437,6 +1475,12 @@ func ruleGrantComplete(c *Ctx, rule string) {
 			if w.preflight {
 				if val, ok := preflightAssume(cond); ok {
 					return val, true
+				}
+			}
+			// the request names an address (a preflight on the empty path, which the tree answers with the root node, is refused)
+			if x, k, eq, okA := an.CondAtom(cond); okA {
+				if s, isS := strConst(k); isS && s == "" && strings.HasSuffix(an.AP(x), ".URL.Path") {
+					return !eq, true
 				}
 			}
 			return false, false
